@@ -138,25 +138,43 @@ class Alias:
                 "to a different attribute."
             ) from e
 
+    @staticmethod
+    def __is_authorised(obj, instance):
+        # This descriptor is only reached once the mutation of `instance` has
+        # been authorised (frozen spec-classes check this before handing over,
+        # e.g. when writing to the private copy made by a copy-on-write
+        # helper), and so follow-on writes to `instance` itself are forced.
+        return obj is instance and hasattr(
+            getattr(type(obj), "__setattr__", None), "__raw__"
+        )
+
     def __set__(self, instance, value):
         if self.passthrough:
             obj = self.__lookup_attr_path(instance, self._attr_path[:-1])
-            if self._attr_path[-1].startswith("["):
-                obj[ast.literal_eval(self._attr_path[-1][1:-1])] = value
-            else:
-                setattr(obj, self._attr_path[-1], value)
+            attr = self._attr_path[-1]
+            if attr.startswith("["):
+                obj[ast.literal_eval(attr[1:-1])] = value
+                return
         else:
-            setattr(instance, self.override_attr, value)
+            obj, attr = instance, self.override_attr
+        if self.__is_authorised(obj, instance):
+            obj.__setattr__(attr, value, force=True)
+        else:
+            setattr(obj, attr, value)
 
     def __delete__(self, instance):
         if self.passthrough:
             obj = self.__lookup_attr_path(instance, self._attr_path[:-1])
-            if self._attr_path[-1].startswith("["):
-                del obj[ast.literal_eval(self._attr_path[-1][1:-1])]
-            else:
-                delattr(obj, self._attr_path[-1])
+            attr = self._attr_path[-1]
+            if attr.startswith("["):
+                del obj[ast.literal_eval(attr[1:-1])]
+                return
         else:
-            delattr(instance, self.override_attr)
+            obj, attr = instance, self.override_attr
+        if self.__is_authorised(obj, instance):
+            obj.__delattr__(attr, force=True)
+        else:
+            delattr(obj, attr)
 
     def __set_name__(self, owner, name):
         self._owner = owner
